@@ -7,8 +7,8 @@ import Py4hwV.Gen.Leaves
   Verilog side.  The shipped interpreter (`V.settlePass`, `V.settleLoop`, `V.Sim.half`, Verilog/Run.lean) runs over a
   HashMap `V.Store`.  Everything it does to a store is observed through `V.Store.rd : V.Rd`; this file restates the same
   steps directly on readers (`V.Rd` = declarations + a valuation `String → BV`), which is what the design-level
-  theorems of Props/C01Flat.lean reason about.  `Proofs/C01FlatStore.lean` proves that the shipped HashMap code
-  refines these definitions (`settlePass_rd`, `settleLoop_rd`).
+  theorems of Props/C01Flat.lean reason about.  `Proofs/C01FlatStore.lean` and `Proofs/C01FlatCycle.lean` prove that the
+  shipped HashMap code refines these definitions (`settlePass_rd`, `settleLoop_rd`, `cycle_rd`).
 
     setWhole / wrA      `Store.wr` for a whole-net target (the only targets of a flat design)
     stepA / passA       one continuous assign / one `settlePass` over the assigns
